@@ -24,12 +24,17 @@ Definition fnames (FT : ftab) : list str := map fst FT.
 
 Section OkStmt.
 Variable FT : ftab.
-(* a call of a known function with the right number of call-free arguments *)
+Variable SP : option (list str).   (* the parameters of the executing function (None at module level): `self(args)` *)
+(* a call of a known function / of the executing function with the right number of call-free arguments *)
 Definition ok_call (B : list str) (e : expr) : bool :=
   match e with
   | ECall (EVar f) args =>
     match assoc f FT with
     | Some (ps, _) => Nat.eqb (length args) (length ps) && forallb (ok_expr B) args
+    | None => false end
+  | ESelf args =>
+    match SP with
+    | Some ps => Nat.eqb (length args) (length ps) && forallb (ok_expr B) args
     | None => false end
   | _ => false
   end.
@@ -266,14 +271,14 @@ Lemma cstmt_SFrom : forall c sl a b incl step x body st,
 Proof. reflexivity. Qed.
 
 Definition frag_eq (c : nat) (s : stmt) : Prop :=
-  forall FT il B sl st, ok_stmt FT il B s = true -> cstmt path c sl s st = (sitems c (lreg st) sl s, st).
+  forall FT SP il B sl st, ok_stmt FT SP il B s = true -> cstmt path c sl s st = (sitems c (lreg st) sl s, st).
 
 Lemma cblockT_frag : forall c l, Forall (frag_eq c) l ->
-  forall FT il B sl st, ok_block FT il B l = true -> cblockT c sl l st = (bitems c (lreg st) sl l, st).
+  forall FT SP il B sl st, ok_block FT SP il B l = true -> cblockT c sl l st = (bitems c (lreg st) sl l, st).
 Proof.
-  intros c. induction l as [|s l IH]; intros HF FT il B sl st Hok; [reflexivity|].
+  intros c. induction l as [|s l IH]; intros HF FT SP il B sl st Hok; [reflexivity|].
   inversion HF as [|? ? Hs Hl]; subst. cbn [ok_block] in Hok. apply Bool.andb_true_iff in Hok as [H1 H2].
-  cbn [cblockT bitems]. rewrite (Hs FT il B sl st H1). rewrite (IH Hl FT il (after B s) sl st H2). reflexivity.
+  cbn [cblockT bitems]. rewrite (Hs FT SP il B sl st H1). rewrite (IH Hl FT SP il (after B s) sl st H2). reflexivity.
 Qed.
 
 Ltac okx H := repeat (rewrite Bool.andb_true_iff in H; let H' := fresh H in destruct H as [H H']).
@@ -287,13 +292,16 @@ Proof.
   cbn [forallb] in H. apply Bool.andb_true_iff in H as [H1 H2]. cbn [cargs argcode argloads].
   rewrite (cexpr_ok B) by exact H1. rewrite IH by exact H2. rewrite !map_app. reflexivity.
 Qed.
-Lemma cexpr_rhs : forall FT B e d st, ok_rhs FT B e = true -> cexpr path d e st = (map CI (xcode d e), st).
+Lemma cexpr_rhs : forall FT SP B e d st, ok_rhs FT SP B e = true -> cexpr path d e st = (map CI (xcode d e), st).
 Proof.
-  intros FT B e d st H. unfold ok_rhs in H. apply Bool.orb_true_iff in H as [H|H].
+  intros FT SP B e d st H. unfold ok_rhs in H. apply Bool.orb_true_iff in H as [H|H].
   - rewrite xcode_pure; [now apply (cexpr_ok B)|]. now apply ok_expr_parts in H as (Hp & _ & _).
-  - destruct e; try discriminate. destruct e; try discriminate. cbn [ok_call] in H.
-    destruct (assoc x FT) as [[ps body]|]; [|discriminate]. apply Bool.andb_true_iff in H as [_ H].
-    rewrite cexpr_ECall. cbn [cexpr]. rewrite (cargs_pure B) by exact H. cbn [xcode]. rewrite !map_app. reflexivity.
+  - destruct e; try discriminate.
+    + destruct e; try discriminate. cbn [ok_call] in H.
+      destruct (assoc x FT) as [[ps body]|]; [|discriminate]. apply Bool.andb_true_iff in H as [_ H].
+      rewrite cexpr_ECall. cbn [cexpr]. rewrite (cargs_pure B) by exact H. cbn [xcode]. rewrite !map_app. reflexivity.
+    + cbn [ok_call] in H. destruct SP as [ps|]; [|discriminate]. apply Bool.andb_true_iff in H as [_ H].
+      rewrite cexpr_ESelf. rewrite (cargs_pure B) by exact H. cbn [xcode]. rewrite !map_app. reflexivity.
 Qed.
 Lemma cexpr_okx : forall B e d st, ok_expr B e = true -> cexpr path d e st = (map CI (xcode d e), st).
 Proof. intros B e d st H. rewrite xcode_pure; [now apply (cexpr_ok B)|]. now apply ok_expr_parts in H as (Hp & _ & _). Qed.
@@ -301,43 +309,43 @@ Proof. intros B e d st H. rewrite xcode_pure; [now apply (cexpr_ok B)|]. now app
 Theorem cstmt_frag : forall c s, frag_eq c s.
 Proof.
   intros c. apply (stmt_ind' (fun _ => True) (frag_eq c)); try (intros; exact Logic.I); unfold frag_eq.
-  - intros x e _ FT il B sl st H. cbn [ok_stmt] in H. okx H. cbn [cstmt sitems]. now rewrite (cexpr_rhs FT B).
-  - intros x e _ FT il B sl st H. discriminate.
-  - intros x o e _ FT il B sl st H. cbn [ok_stmt] in H. okx H. cbn [cstmt sitems]. now rewrite (cexpr_ok B).
-  - intros e _ FT il B sl st H. cbn [ok_stmt] in H. cbn [cstmt sitems]. now rewrite (cexpr_rhs FT B).
-  - intros e sp _ FT il B sl st H. cbn [ok_stmt] in H. cbn [cstmt sitems]. now rewrite (cexpr_ok B).
-  - intros e _ FT il B sl st H. cbn [ok_stmt] in H. cbn [cstmt sitems]. now rewrite (cexpr_rhs FT B).
-  - intros cnd b _ Hb FT il B sl st H. rewrite ok_SIf in H. okx H.
+  - intros x e _ FT SP il B sl st H. cbn [ok_stmt] in H. okx H. cbn [cstmt sitems]. now rewrite (cexpr_rhs FT SP B).
+  - intros x e _ FT SP il B sl st H. discriminate.
+  - intros x o e _ FT SP il B sl st H. cbn [ok_stmt] in H. okx H. cbn [cstmt sitems]. now rewrite (cexpr_ok B).
+  - intros e _ FT SP il B sl st H. cbn [ok_stmt] in H. cbn [cstmt sitems]. now rewrite (cexpr_rhs FT SP B).
+  - intros e sp _ FT SP il B sl st H. cbn [ok_stmt] in H. cbn [cstmt sitems]. now rewrite (cexpr_ok B).
+  - intros e _ FT SP il B sl st H. cbn [ok_stmt] in H. cbn [cstmt sitems]. now rewrite (cexpr_rhs FT SP B).
+  - intros cnd b _ Hb FT SP il B sl st H. rewrite ok_SIf in H. okx H.
     rewrite cstmt_SIf, sitems_SIf, (cexpr_ok B) by assumption.
-    rewrite (cblockT_frag c b Hb FT il B _ st) by assumption. reflexivity.
-  - intros cnd b e _ Hb He FT il B sl st H. rewrite ok_SIfElse in H. okx H.
+    rewrite (cblockT_frag c b Hb FT SP il B _ st) by assumption. reflexivity.
+  - intros cnd b e _ Hb He FT SP il B sl st H. rewrite ok_SIfElse in H. okx H.
     rewrite cstmt_SIfElse, sitems_SIfElse, (cexpr_ok B) by assumption.
-    rewrite (cblockT_frag c b Hb FT il B _ st) by assumption.
-    rewrite (cblockT_frag c e He FT il B _ st) by assumption. reflexivity.
-  - intros cnd b n _ Hb Hn FT il B sl st H. rewrite ok_SIfElif in H. okx H.
+    rewrite (cblockT_frag c b Hb FT SP il B _ st) by assumption.
+    rewrite (cblockT_frag c e He FT SP il B _ st) by assumption. reflexivity.
+  - intros cnd b n _ Hb Hn FT SP il B sl st H. rewrite ok_SIfElif in H. okx H.
     rewrite cstmt_SIfElif, sitems_SIfElif, (cexpr_ok B) by assumption.
-    rewrite (cblockT_frag c b Hb FT il B _ st) by assumption.
-    rewrite (Hn FT il B _ st) by assumption. reflexivity.
-  - intros cnd b _ Hb FT il B sl st H. rewrite ok_SWhile in H. okx H.
+    rewrite (cblockT_frag c b Hb FT SP il B _ st) by assumption.
+    rewrite (Hn FT SP il B _ st) by assumption. reflexivity.
+  - intros cnd b _ Hb FT SP il B sl st H. rewrite ok_SWhile in H. okx H.
     rewrite cstmt_SWhile, sitems_SWhile, (cexpr_ok B) by assumption.
-    rewrite (cblockT_frag c b Hb FT true B _ st) by assumption. reflexivity.
-  - intros a b incl step nm col body _ _ _ Hbody FT il B sl st H.
+    rewrite (cblockT_frag c b Hb FT SP true B _ st) by assumption. reflexivity.
+  - intros a b incl step nm col body _ _ _ Hbody FT SP il B sl st H.
     destruct nm as [x|]; [|discriminate]. destruct col; [discriminate|].
     rewrite ok_SFrom in H. okx H.
     rewrite cstmt_SFrom, sitems_SFrom, (cexpr_ok B) by assumption.
     rewrite (cexpr_ok B) by assumption.
-    cbv zeta. rewrite (cblockT_frag c body Hbody FT true (x :: B) _ _) by assumption. cbn [lreg fid fbuf].
+    cbv zeta. rewrite (cblockT_frag c body Hbody FT SP true (x :: B) _ _) by assumption. cbn [lreg fid fbuf].
     assert (Est : forall stx : cst, {| fid := fid stx; lreg := S (lreg stx) - 1; fbuf := fbuf stx |} = stx).
     { intros [f l0 fb]. cbn. now rewrite Nat.sub_0_r. }
     destruct step as [e|].
     + cbn [step_ok] in H3. rewrite (cexpr_ok (x :: B)) by assumption. cbn [step_code]. cbn [lreg fid fbuf]. rewrite Est. reflexivity.
     + cbn [step_code]. cbn [lreg fid fbuf]. rewrite Est. reflexivity.
-  - intros FT il B sl st H. reflexivity.
-  - intros FT il B sl st H. reflexivity.
-  - intros [e|] _ FT il B sl st H; [|discriminate]. cbn [ok_stmt] in H. cbn [cstmt sitems]. now rewrite (cexpr_rhs FT B).
+  - intros FT SP il B sl st H. reflexivity.
+  - intros FT SP il B sl st H. reflexivity.
+  - intros [e|] _ FT SP il B sl st H; [|discriminate]. cbn [ok_stmt] in H. cbn [cstmt sitems]. now rewrite (cexpr_rhs FT SP B).
 Qed.
 
-Corollary cblockT_ok : forall c l FT il B sl st, ok_block FT il B l = true -> cblockT c sl l st = (bitems c (lreg st) sl l, st).
+Corollary cblockT_ok : forall c l FT SP il B sl st, ok_block FT SP il B l = true -> cblockT c sl l st = (bitems c (lreg st) sl l, st).
 Proof.
   intros c l. apply cblockT_frag. apply Forall_forall. intros s _. apply cstmt_frag.
 Qed.
